@@ -34,6 +34,9 @@ HAND = [
     'x = 1 + 1.; x = 1. + .5; x = a - .5; x = a + 0x1F; x = 1.5e10; x = 1e-5; x = 1E+5;',
     'if (a) if (b) c; else d; if (a) { if (b) c; } else d; if (a) for (;;) if (b) c; else d;',
     'x = a\n++\nb',
+    'x = - --a; x = + ++a; x = - -a; x = + +a; x = - +a; x = -+a; x = +-a; x = !--a; x = typeof ++a; x = - - -a; x = ~-a; x = -~a;',
+    'x = a - - --b; x = a++ + ++b; x = a-- - --b; x = a + - + - b; x = a++ - -b; x = - a++; x = - a--; x = + a++ + b;',
+    'x = a - (-b); x = a + (+b); x = a - (--b); x = a + (++b); x = (a++) + b; x = (a--) - b;',
     'function f(o) { var k; for (k in o) ; }', '{ while (1) ; }', '{ for (;;) ; }', '{ if (a) ; }', '{ if (a) b; else ; }',
     '{ l: ; }', '{ with (a) ; }', 'switch (a) { case 1: while (b) ; }', 'function g() { for (var k in o) ; }', 'for (k in o) ;',
     'do ; while (a); b;', '{ do ; while (a); }', 'if (a) ; else b;',
